@@ -7,3 +7,4 @@
 -/
 import ForsysModel.Props.C03
 import ForsysModel.Props.C03matrix
+import ForsysModel.Props.C13relabel
